@@ -43,6 +43,16 @@ type PointClause struct {
 	C     *Clause
 }
 
+// PointGhost: a ghost variable bound (let) or incremented (count) at a program point.
+type PointGhost struct {
+	Point string
+	Kind  string // "let" | "count"
+	Name  string
+	Sort  string
+	Expr  *SExpr // let
+	Cond  *SExpr // count
+}
+
 type FuncContract struct {
 	Key         string // "(*BaseStore).recalculateReplicationMax", "SaveSnapshot", "(*BaseStore).InitBaseStore$1"
 	PkgPath     string // package the contract file belongs to ("" for prelude)
@@ -58,7 +68,8 @@ type FuncContract struct {
 	Props       []string
 	SafetyProps []string      // `safety Cnn ...`
 	Points      []PointClause // assert/assume at program points
-	Trusted     bool          // contract is assumed, body not verified
+	PointGhosts []PointGhost
+	Trusted     bool // contract is assumed, body not verified
 	Flags       map[string]bool
 
 	// extern only
@@ -121,7 +132,7 @@ func newContracts() *Contracts {
 var clauseKeywords = map[string]bool{
 	"func": true, "extern": true, "pure": true, "noeffect": true, "spec": true, "ghost": true,
 	"axiom": true, "lemma": true, "requires": true, "ensures": true, "modifies": true, "loop": true,
-	"devirt": true, "wraps": true, "props": true, "assume": true, "assert": true, "assume?": true, "assert?": true, "trusted": true, "inline": true, "flag": true,
+	"devirt": true, "wraps": true, "props": true, "safety": true, "let": true, "count": true, "assume": true, "assert": true, "assume?": true, "assert?": true, "trusted": true, "inline": true, "flag": true,
 }
 
 type rawLine struct {
@@ -494,6 +505,45 @@ func (cs *Contracts) loadFile(file, pkgPath string) error {
 				return fmt.Errorf("%s:%d: trusted outside a func", rl.file, rl.line)
 			}
 			cur.Trusted = true
+		case "let", "count":
+			// let @ <point>: name Sort := expr        ghost bound at a program point (unconstrained before it)
+			// count @ <point> when cond: name          ghost counter: 0 at entry, +1 at the point when cond holds
+			if cur == nil {
+				return fmt.Errorf("%s:%d: %s outside a func", rl.file, rl.line, kw)
+			}
+			i := strings.Index(rest, ":")
+			if !strings.HasPrefix(rest, "@") || i < 0 {
+				return fmt.Errorf("%s:%d: %s needs '@ point: ...'", rl.file, rl.line, kw)
+			}
+			pt := strings.TrimSpace(rest[1:i])
+			body := strings.TrimSpace(rest[i+1:])
+			pg := PointGhost{Point: pt, Kind: kw}
+			if kw == "count" {
+				j := strings.Index(pt, " when ")
+				if j < 0 {
+					return fmt.Errorf("%s:%d: count needs 'when cond'", rl.file, rl.line)
+				}
+				ce, err := parseSpecExpr(pt[j+6:])
+				if err != nil {
+					return fmt.Errorf("%s:%d: %v", rl.file, rl.line, err)
+				}
+				pg.Point, pg.Cond, pg.Name, pg.Sort = strings.TrimSpace(pt[:j]), ce, body, "Int"
+			} else {
+				j := strings.Index(body, ":=")
+				if j < 0 {
+					return fmt.Errorf("%s:%d: let needs 'name Sort := expr'", rl.file, rl.line)
+				}
+				hd := strings.Fields(body[:j])
+				if len(hd) != 2 {
+					return fmt.Errorf("%s:%d: let needs 'name Sort := expr'", rl.file, rl.line)
+				}
+				e, err := parseSpecExpr(body[j+2:])
+				if err != nil {
+					return fmt.Errorf("%s:%d: %v", rl.file, rl.line, err)
+				}
+				pg.Name, pg.Sort, pg.Expr = hd[0], hd[1], e
+			}
+			cur.PointGhosts = append(cur.PointGhosts, pg)
 		case "assume", "assert", "assume?", "assert?":
 			// assume @ <point> : expr
 			if cur == nil {
